@@ -1585,7 +1585,9 @@ def split_chained_assignments(trees):
         nonlocal n
         out = []
         for s in stmts:
-            if isinstance(s, ast.Assign) and len(s.targets) > 1 and _stable(s.value):
+            pure_item = isinstance(s.value, ast.Subscript) and _stable(s.value.value) and isinstance(s.value.slice, ast.Constant) \
+                if isinstance(s, ast.Assign) else False
+            if isinstance(s, ast.Assign) and len(s.targets) > 1 and (_stable(s.value) or pure_item):
                 for t in s.targets:
                     out.append(ast.copy_location(ast.Assign(targets=[t], value=copy.deepcopy(s.value)), s))
                 n += 1
